@@ -1,4 +1,6 @@
 //! vengine <ID> [quick|thorough]  |  vengine <ID> --replay <file>
+mod alloc;
+mod faults;
 mod graphs;
 mod hist;
 mod oracle;
@@ -10,6 +12,9 @@ mod wire;
 
 use vcommon::evidence::{silence_panics, tier_from_env_or};
 
+#[global_allocator]
+static GLOBAL: alloc::Counting = alloc::Counting;
+
 fn main() {
     let args: Vec<String> = std::env::args().collect();
     if args.len() < 2 {
@@ -18,12 +23,17 @@ fn main() {
     }
     silence_panics();
     let id = args[1].as_str();
+    if id == "C14-child" {
+        let a = |i: usize| args[i].parse::<u64>().unwrap();
+        std::process::exit(faults::child(args[2] == "thorough", a(3), a(4), a(5), a(6), &args[7]));
+    }
     if args.get(2).map(|s| s.as_str()) == Some("--replay") {
         let file = args.get(3).expect("replay file");
         let body: serde_json::Value =
             serde_json::from_str(&std::fs::read_to_string(file).expect("read replay file")).expect("replay json");
         let code = match id {
             "C18" => paths::replay(&body),
+            "C14" => faults::replay(&body),
             "C06" | "C07" | "C08" => wire::replay(id, &body),
             "C01" | "C02" | "C05" | "C10" | "C11" | "C12" => reg::replay(id, &body),
             _ => {
@@ -37,6 +47,7 @@ fn main() {
     let thorough = tier == "thorough";
     let code = match id {
         "C18" => paths::run(thorough),
+        "C14" => faults::run(thorough),
         "C06" | "C07" | "C08" => wire::run(id, thorough),
         "C01" => reg::run("C01", thorough),
         "C02" => reg::run("C02", thorough),
